@@ -60,6 +60,8 @@ def same_state(interp, a, b, ignore=(), path="$"):
                 return interp.eq(x, y)
             return False
         if isinstance(x, PyList) and isinstance(y, PyList):
+            if x.prefix is not None or y.prefix is not None:
+                return interp.bm.open_list_eq(interp, x, y)
             if len(x.items) != len(y.items):
                 return False
             return ops.b_and(*[interp.symtruth(rec(p, q)) for p, q in zip(x.items, y.items)])
@@ -225,12 +227,20 @@ def primitives(interp):
         return a is b
     ns["is_same"] = is_same
 
+    @_b("open_dict")
+    def open_dict(interp, name, key_td, mk_key, key_of, value_tds, mk_value):
+        """a dict in an arbitrary state (any number of entries): see pyvc/opendict.py"""
+        from . import opendict
+        return opendict.make(interp, name, key_td, mk_key, key_of, value_tds, mk_value)
+    ns["open_dict"] = open_dict
+
     # ---- type descriptors for harness parameters
     ns["Int"] = TypeDesc("int", None, None)
     ns["Bool"] = TypeDesc("bool")
     ns["Bytes"] = TypeDesc("bytes", None, None)
     ns["Str"] = TypeDesc("str", None)
     ns["Real"] = TypeDesc("real")
+    ns["IntList"] = TypeDesc("list", TypeDesc("int", None, None), None)  # list of ints of ANY length (open list)
 
     @_b("IntRange")
     def int_range(interp, lo=None, hi=None):
